@@ -78,14 +78,25 @@ def qe_desc(draw, wave_nm):
             "unit": draw(st.sampled_from(UNITS))}
 
 
+def same_numbers_qe(draw, wave_nm, waveunit):
+    """an efficiency spectrum whose raw wavelength array holds exactly the numbers of the cube's wavelength array, in
+    ANOTHER unit (1, 2, 3 um tabulated; 1, 2, 3 nm asked for): physically it lies a factor 10 .. 1e9 away"""
+    raw = np.asarray(wave_nm, dtype=float) * rs.factor("nm", waveunit)
+    unit = draw(st.sampled_from([u for u in UNITS if u != waveunit]))
+    k = draw(st.integers(0, 2**31 - 1))
+    return {"kind": "spectrum", "w_nm": raw * rs.factor(unit, "nm"), "raw": raw,
+            "v": np.random.default_rng(k).uniform(0.2, 1, size=len(raw)), "unit": unit, "relation": "same_numbers"}
+
+
 def make_qe(d):
     if d["kind"] == "scalar":
         return np.dtype(d["dtype"]).type(d["value"]) if d.get("dtype") else d["value"]
     if d["kind"] == "vector":
         return np.array(d["value"], dtype=d.get("dtype"))
     from checks import common as cm
+    raw = d["raw"].copy() if d.get("raw") is not None else d["w_nm"] * rs.factor("nm", d["unit"])
     return cm.build_obj(Spectrum, "lentil.radiometry.Spectrum", len(d["w_nm"]) + int(abs(float(d["v"][0])) * 1000),
-                        d["w_nm"] * rs.factor("nm", d["unit"]), d["v"].copy(), waveunit=d["unit"])[0]
+                        raw, d["v"].copy(), waveunit=d["unit"])[0]
 
 
 def qe_values(d, wave_nm):
@@ -130,9 +141,13 @@ def charge_case(draw, tier):
             # slices goes beyond the type's own range
             top = {"uint8": 250, "uint16": 60000, "int16": 30000, "int8": 120}[nar]
             img = (np.random.default_rng(k).integers(top // 2, top, size=(nw,) + shape)).astype(nar)
-    return {"wave_nm": wave_nm, "img": img, "qe": draw(qe_desc(wave_nm)), "qe2": draw(qe_desc(wave_nm)),
+    wu = draw(st.sampled_from(UNITS))
+    qe = draw(qe_desc(wave_nm))
+    if nw >= 2 and draw(st.integers(0, 5)) == 0:
+        qe = same_numbers_qe(draw, wave_nm, wu)
+    return {"wave_nm": wave_nm, "img": img, "qe": qe, "qe2": draw(qe_desc(wave_nm)),
             "wave_as_list": draw(st.booleans()),
-            "waveunit": draw(st.sampled_from(UNITS)), "squeeze": nw == 1 and draw(st.booleans()),
+            "waveunit": wu, "squeeze": nw == 1 and draw(st.booleans()),
             "a": draw(gen.finite(-2, 2)), "b": draw(gen.finite(-2, 2))}
 
 
@@ -146,7 +161,7 @@ def collect_charge(case, ctx):
     img = case["img"]
     d = case["qe"]
     qe = make_qe(d)
-    ctx.tag("qe:" + d["kind"], "waveunit:" + wu, "qe_unit:" + d.get("unit", "-"), f"nwave:{len(wave_nm)}",
+    ctx.tag("qe:" + d["kind"], "qe_relation:same_numbers" if d.get("relation") == "same_numbers" else None, "waveunit:" + wu, "qe_unit:" + d.get("unit", "-"), f"nwave:{len(wave_nm)}",
             "2d_input" if case["squeeze"] else None)
     ctx.nontrivial_if(len(wave_nm) >= 2 and (d["kind"] != "spectrum" or d["unit"] != wu))
     img = gen.relayout(img, ["C", "F", "strided", "transposed_view"][len(wave_nm) % 4])
@@ -202,9 +217,13 @@ def bayer_case(draw, tier):
     img = np.random.default_rng(kk).uniform(1, 1000, size=(nw,) + shape)
     same = draw(st.sampled_from([False, False, True]))
     qr = draw(qe_desc(wave_nm))
+    wu = draw(st.sampled_from(UNITS))
+    qg = qr if same else draw(qe_desc(wave_nm))
+    if nw >= 2 and not same and draw(st.integers(0, 5)) == 0:
+        qg = same_numbers_qe(draw, wave_nm, wu)
     return {"k": k, "pattern": pattern, "oversample": os_, "wave_nm": wave_nm, "img": img,
-            "qe": [qr, qr if same else draw(qe_desc(wave_nm)), qr if same else draw(qe_desc(wave_nm))],
-            "same_qe": same, "waveunit": draw(st.sampled_from(UNITS)), "flatten": draw(st.booleans())}
+            "qe": [qr, qg, qr if same else draw(qe_desc(wave_nm))],
+            "same_qe": same, "waveunit": wu, "flatten": draw(st.booleans())}
 
 
 @hyp("C16", "bayer", lambda tier: bayer_case(tier),
